@@ -602,6 +602,7 @@ func runCheck(id, tier, work string) int {
 	excluded := map[string]int{}
 	knownHits := map[string]int{}
 	crashNotes := map[string]int{}
+	var crashCases []core.ViolationRec
 	var first, minh []core.Sample
 	restarts := 0
 	timedOut := false
@@ -630,6 +631,7 @@ func runCheck(id, tier, work string) int {
 				} else {
 					excluded["crash-unlisted"]++
 					crashNotes[d.Sig]++
+					crashCases = append(crashCases, d)
 				}
 				continue
 			}
@@ -663,6 +665,7 @@ func runCheck(id, tier, work string) int {
 			}
 			minh = append(minh, s.MinHash...)
 			violations = append(violations, s.Violations...)
+			crashCases = append(crashCases, s.CrashCases...)
 		}
 	}
 	if len(first) > 3 {
@@ -777,6 +780,17 @@ func runCheck(id, tier, work string) int {
 	sort.Strings(cn)
 	for _, l := range cn {
 		fmt.Println(l)
+	}
+	seenCrash := map[string]bool{}
+	for _, cc := range crashCases {
+		if seenCrash[cc.Sig] {
+			continue
+		}
+		seenCrash[cc.Sig] = true
+		b, _ := json.MarshalIndent(cc, "", " ")
+		p := filepath.Join(verifDir, "replay", fmt.Sprintf("%s-crash-%016x.json", id, core.Hash64([]byte(cc.Sig))))
+		os.WriteFile(p, b, 0o644)
+		fmt.Printf("NOTE: input of the unlisted crash %s saved as %s\n", cc.Sig, p)
 	}
 	for _, f := range ledger.Findings {
 		if f.Property != id {
